@@ -17,7 +17,12 @@
 //!    and near-miss spellings, since the parameter family picked on deserialisation may depend on the value of `crv`;
 //!  * the typed conversion `Jwk::try_from(jsonprooftoken::jwk::key::Jwk)` (and the way back) over both source
 //!    parameter variants x every curve x every declared source `kty` x private part x optional members, directly,
-//!    after the source's own `to_public()`, and for sources read from JSON or generated.
+//!    after the source's own `to_public()`, and for sources read from JSON or generated;
+//!  * every declared type x every parameter family, put together through the explicitly unchecked setters
+//!    (`set_params_unchecked`, assignment through `params_mut()`): the mismatch itself is not judged, but the
+//!    thumbprint of one (declared type, public members) identity must not change with the private members present
+//!    (every subset, also removed / set in place through `try_*_params_mut` / `params_mut`), the optional members or
+//!    the way the parameters got there, and all per-JWK monitors (is_public, projection, constructors) apply.
 use futures::executor::block_on;
 use identity_core::common::{Object, Url};
 use identity_core::convert::{FromJson, ToJson};
@@ -535,6 +540,68 @@ impl Route {
   }
 }
 
+/// `Info::class` of a JWK whose declared type the harness itself made differ from the parameters carried, through
+/// the explicitly unchecked setters. The mismatch is then not judged; everything the statement says about "every JWK" is.
+const UNCHECKED: &str = "unchecked";
+
+/// Ways to put parameters of any family under any declared type, and to add / remove private members afterwards.
+#[derive(Clone, Copy, Debug, PartialEq, Eq)]
+enum URoute {
+  SetUnchecked,
+  ParamsMutAssign,
+  /// built with the private members, which are then removed in place (observed before and after)
+  ClearInPlace,
+  /// built without private members, which are then set in place (observed before and after)
+  AddInPlace,
+}
+const UROUTES: [URoute; 4] = [URoute::SetUnchecked, URoute::ParamsMutAssign, URoute::ClearInPlace, URoute::AddInPlace];
+
+impl URoute {
+  fn name(self) -> &'static str {
+    match self {
+      URoute::SetUnchecked => "new+set_params_unchecked",
+      URoute::ParamsMutAssign => "new+params_mut-assign",
+      URoute::ClearInPlace => "new+set_params_unchecked+clear-private-in-place",
+      URoute::AddInPlace => "new+set_params_unchecked+set-private-in-place",
+    }
+  }
+}
+
+/// Makes the private members of `j` those of `target` (same family), leaving the public ones alone; through the
+/// family-checked accessors (`via_try`) or through `params_mut()`. False when the families differ.
+fn edit_privs(j: &mut Jwk, target: &JwkParams, via_try: bool) -> bool {
+  match target {
+    JwkParams::Ec(t) => {
+      let p = if via_try { j.try_ec_params_mut().ok() } else if let JwkParams::Ec(p) = j.params_mut() { Some(p) } else { None };
+      p.map(|p| p.d = t.d.clone()).is_some()
+    }
+    JwkParams::Okp(t) => {
+      let p = if via_try { j.try_okp_params_mut().ok() } else if let JwkParams::Okp(p) = j.params_mut() { Some(p) } else { None };
+      p.map(|p| p.d = t.d.clone()).is_some()
+    }
+    JwkParams::Rsa(t) => {
+      let p = if via_try { j.try_rsa_params_mut().ok() } else if let JwkParams::Rsa(p) = j.params_mut() { Some(p) } else { None };
+      p.map(|p| {
+        p.d = t.d.clone();
+        p.p = t.p.clone();
+        p.q = t.q.clone();
+        p.dp = t.dp.clone();
+        p.dq = t.dq.clone();
+        p.qi = t.qi.clone();
+        p.oth = t.oth.clone();
+      })
+      .is_some()
+    }
+    JwkParams::Oct(_) => {
+      if via_try {
+        j.try_oct_params_mut().is_ok()
+      } else {
+        matches!(j.params_mut(), JwkParams::Oct(_))
+      }
+    }
+  }
+}
+
 /// Context of the case for violation records.
 struct Info {
   origin: String,
@@ -787,7 +854,11 @@ impl Cx {
     // ---- declared type == family of the parameters carried
     self.rep.inc("oracle_coherence");
     let coherent = declared == v.fam;
-    if !coherent {
+    if !coherent && info.class == UNCHECKED {
+      // put there by the harness through an explicitly unchecked setter: the mismatch itself is not judged,
+      // every other clause ("for every JWK") is
+      self.rep.inc("unchecked_mismatch_observed");
+    } else if !coherent {
       self.rep.inc(&format!("mismatch:{}->{}", declared.name(), v.fam.name()));
       self.rep.violation(
         &format!("kty-params-mismatch:{}", info.class),
@@ -902,6 +973,10 @@ impl Cx {
             }
           }
         }
+        if !coherent && info.class == UNCHECKED {
+          // which of the two disagreeing types the projection of such a key should keep is not judged; observation only
+          self.rep.inc(if pk == declared { "obs_unchecked_to_public_keeps_declared_kty" } else { "obs_unchecked_to_public_changes_declared_kty" });
+        }
         // idempotence of the projection (whole JWK)
         self.rep.inc("oracle_idempotent");
         if same != Some(true) {
@@ -960,7 +1035,7 @@ impl Cx {
         match back {
           Ok(j2) => {
             self.rep.inc("reserialized_accepted");
-            let info2 = Info { origin: format!("{} -> to_json -> from_json", info.origin), class: if coherent { "deserialize" } else { info.class }, input: text };
+            let info2 = Info { origin: format!("{} -> to_json -> from_json", info.origin), class: if coherent || info.class == UNCHECKED { "deserialize" } else { info.class }, input: text };
             let t2 = self.observe(&j2, &info2, if coherent { spec } else { None }, depth + 1);
             if coherent && t2.is_some() && thumb_j.is_some() && t2 != thumb_j {
               self.rep.violation(
@@ -1263,6 +1338,113 @@ impl Cx {
           }
           Some(Err(_)) => self.rep.inc("ext_back_refused"),
           None => {}
+        }
+      }
+    }
+  }
+
+  /// Observes one key of an unchecked-setter group; its (thumbprint, hash input) when both could be taken.
+  fn unchecked_state(&mut self, j: &Jwk, info: &Info, depth: u8) -> Option<(String, String)> {
+    let t = self.observe(j, info, None, depth)?;
+    let hin = guard(&mut self.rep, "thumbprint", info, || j.thumbprint_hash_input())?;
+    Some((t, hin))
+  }
+
+  /// One key identity = (declared type, parameters of family `base.fam` with the public members `base.req`), the
+  /// declared type being any of the four (the unchecked setters allow every combination). The thumbprint of the
+  /// bare key (no private, no optional member) is compared with that of every variant: private-member subsets,
+  /// optional members, the way the parameters got there, private members removed / added in place. The statement
+  /// makes the thumbprint depend on the required public members only, for every JWK; the harness compares library
+  /// values of the same identity with each other and does not say which value it is when the types disagree.
+  fn unchecked_group(&mut self, declared: Fam, base: &Spec, variants: &[(u32, u32, URoute)], rng: &mut Rng) {
+    self.rep.eval();
+    self.rep.inc("unchecked_groups");
+    let carried = base.fam;
+    let mismatched = declared != carried;
+    let class: &'static str = if mismatched { UNCHECKED } else { "set_params" };
+    let tag = if mismatched { format!("kty-differs-from-params:{}", carried.name()) } else { carried.name().to_string() };
+    let minimal = Spec { fam: carried, req: base.req.clone(), privs: Vec::new(), opt: Opt::default() };
+    let describe = |s: &Spec, route: URoute, state: &str| -> String {
+      format!("Jwk::new({}) then {} with {} parameters {} [{}]", declared.name(), route.name(), carried.name(), render(&s.members()[1..], false), state)
+    };
+    let info0 = Info { origin: URoute::SetUnchecked.name().to_string(), class, input: describe(&minimal, URoute::SetUnchecked, "as built") };
+    let Some(bare) = guard(&mut self.rep, URoute::SetUnchecked.name(), &info0, || {
+      let mut j = Jwk::new(declared.ty());
+      j.set_params_unchecked(minimal.params());
+      j
+    }) else {
+      return;
+    };
+    let t0 = self.unchecked_state(&bare, &info0, 0);
+    for (pmask, omask, route) in variants {
+      let route = *route;
+      self.rep.eval();
+      let spec = Spec { fam: carried, req: base.req.clone(), privs: privs_from_mask(carried, *pmask, rng), opt: Opt::from_mask(*omask, rng) };
+      let via_try = rng.bool();
+      let info = Info { origin: route.name().to_string(), class, input: describe(&spec, route, "building") };
+      self.rep.inc(&format!("unchecked_route:{}", route.name()));
+      let built: Option<Vec<(&'static str, Jwk)>> = guard(&mut self.rep, route.name(), &info, || {
+        let mut out = Vec::new();
+        let mut j = Jwk::new(declared.ty());
+        match route {
+          URoute::SetUnchecked => {
+            spec.opt.apply(&mut j);
+            j.set_params_unchecked(spec.params());
+            out.push(("as built", j));
+          }
+          URoute::ParamsMutAssign => {
+            *j.params_mut() = spec.params();
+            spec.opt.apply(&mut j);
+            out.push(("as built", j));
+          }
+          URoute::ClearInPlace => {
+            spec.opt.apply(&mut j);
+            j.set_params_unchecked(spec.params());
+            out.push(("before removing the private members", j.clone()));
+            if edit_privs(&mut j, &minimal.params(), via_try) {
+              out.push(("private members removed in place", j));
+            }
+          }
+          URoute::AddInPlace => {
+            j.set_params_unchecked(minimal.params());
+            spec.opt.apply(&mut j);
+            out.push(("before setting the private members", j.clone()));
+            if edit_privs(&mut j, &spec.params(), via_try) {
+              out.push(("private members set in place", j));
+            }
+          }
+        }
+        out
+      });
+      let Some(built) = built else { continue };
+      if built.len() == 2 {
+        self.rep.inc("unchecked_in_place_edits");
+      } else if route == URoute::ClearInPlace || route == URoute::AddInPlace {
+        self.rep.inc("unchecked_in_place_accessor_refused");
+      }
+      self.rep.distinct(
+        "nontrivial",
+        &format!("unchecked|{}|{}|p{}|o{}|{}", declared.name(), carried.name(), spec.priv_mask(), spec.opt.mask().count_ones().min(2), route.name()),
+      );
+      for (state, j) in &built {
+        let info = Info { origin: route.name().to_string(), class, input: describe(&spec, route, state) };
+        let with_private = catch(|| !view(j.params()).privs.is_empty() && carried != Fam::Oct).unwrap_or(false);
+        let got = self.unchecked_state(j, &info, 1);
+        let (Some(a), Some(b)) = (&t0, &got) else { continue };
+        self.rep.inc("oracle_thumb_unchecked_invariance");
+        if mismatched {
+          self.rep.inc(if with_private { "oracle_thumb_mismatched_with_private" } else { "oracle_thumb_mismatched_without_private" });
+        }
+        if a != b {
+          let sig = if with_private { "thumbprint-changes-with-private-part" } else { "thumbprint-not-invariant" };
+          self.rep.violation(
+            &format!("{}:{}", sig, tag),
+            &format!(
+              "thumbprint {} (hash input {}) of the key without private and optional members became {} (hash input {}) for the same declared type and public members; {}",
+              a.0, a.1, b.0, b.1, info.input
+            ),
+            json!({"origin": info.origin, "input": info.input, "bare": info0.input, "bare_hash_input": a.1, "hash_input": b.1}),
+          );
         }
       }
     }
@@ -1605,10 +1787,13 @@ fn main() {
      declared kty x EC/OKP member shape x every registered curve name and near-miss spellings) and a share of the well-formed \
      JSON also read through JwkSet / JWS header / verification method / document / did:jwk / JwkGenOutput; keys converted from \
      json-proof-token JWKs (parameter variant x curve x declared source kty x private part x optional members, directly, after \
-     the source's to_public, after a JSON trip of the source, generated) and converted back and forth. non-trivial+distinct = JWK \
+     the source's to_public, after a JSON trip of the source, generated) and converted back and forth; groups of keys with one \
+     declared type and one set of public members of any family (set_params_unchecked / params_mut), over private-member subsets, \
+     optional members and in-place removal / addition of the private members. non-trivial+distinct = JWK \
      actually obtained, classed by (family, private-member subset, number of optional members, route, permuted?, plain values?) \
      resp. odd-JSON shape resp. (container, shape) resp. (declared family, params family, set_params outcome) resp. (document \
-     kind, methods) resp. (source variant, curve, source kty, private?, optional members, step)",
+     kind, methods) resp. (source variant, curve, source kty, private?, optional members, step) resp. (declared type, carried \
+     family, private-member subset, optional members, unchecked route)",
   );
   let mut rng = args.rng(18);
   let thorough = args.thorough;
@@ -1757,6 +1942,68 @@ fn main() {
         cx.rep.inc("ext_generate_failed");
       }
     }
+  }
+
+  // ---- G. every declared type x every parameter family through the unchecked setters: thumbprint unchanged by the
+  // private part / optional members / the way the members got there, and all per-JWK monitors
+  // exhaustive: declared x carried x optional-member choice x route, each group over the private-member subsets
+  let mut gidx: u64 = 0;
+  for declared in FAMS {
+    for carried in FAMS {
+      for oi in 0..3u32 {
+        for route in UROUTES {
+          gidx += 1;
+          if !args.mine(gidx) || !(scale >= 1000 || gidx % 23 == 0) {
+            continue;
+          }
+          let mut r = Rng::new(0xC18 ^ 0x6C, gidx);
+          let np = carried.priv_names().len() as u32;
+          let mut pmasks: Vec<u32> = if np <= 1 {
+            (0..(1u32 << np)).collect()
+          } else if thorough {
+            (0..(1u32 << np)).collect()
+          } else {
+            let mut v: Vec<u32> = vec![0, (1 << np) - 1];
+            v.extend((0..np).map(|i| 1u32 << i));
+            v.extend((0..3).map(|_| r.below(1 << np) as u32));
+            v
+          };
+          if scale < 1000 {
+            pmasks.truncate(4);
+          }
+          let omask = match oi {
+            0 => 0,
+            1 => 255,
+            _ => r.below(256) as u32,
+          };
+          let variants: Vec<(u32, u32, URoute)> = pmasks.iter().map(|p| (*p, omask, route)).collect();
+          let base = Spec { fam: carried, req: fixed_req(carried), privs: Vec::new(), opt: Opt::default() };
+          cx.unchecked_group(declared, &base, &variants, &mut r);
+          cx.rep.inc("unchecked_exhaustive_groups");
+        }
+      }
+    }
+  }
+  // random: any declared type, any public member values, random private subsets / optional members / routes
+  let n_unch = sc(if thorough { 1_600_000 } else { 16_000 }) / args.nshards.max(1);
+  for _ in 0..n_unch.max(1) {
+    let declared = *rng.pick(&FAMS);
+    let base = random_spec(&mut rng);
+    let np = base.fam.priv_names().len() as u32;
+    let variants: Vec<(u32, u32, URoute)> = (0..3)
+      .map(|i| {
+        let pmask = if np == 0 {
+          0
+        } else if i == 0 {
+          1 + rng.below((1 << np) - 1) as u32
+        } else {
+          rng.below(1 << np) as u32
+        };
+        let omask = if rng.bool() { 0 } else { rng.below(256) as u32 };
+        (pmask, omask, *rng.pick(&UROUTES))
+      })
+      .collect();
+    cx.unchecked_group(declared, &base, &variants, &mut rng);
   }
 
   cx.rep.finish();
